@@ -747,6 +747,27 @@ func runSScenario(t *testing.T, ops *opsWriter, rng *rand.Rand, steps int, hosti
 		// by looking at the completion lines of the implementation.
 		track := func() {}
 		_ = track
+		if rng.Intn(5) == 0 {
+			// A peer that says everything at once: a server-streaming RPC gets TWO complete request messages and the
+			// half-close before its handler reads for the first time (C16: the first read must fail with InvalidArgument,
+			// whether or not more frames can still arrive).
+			sid := next
+			next++
+			g := &gStream{sid: sid, shape: "SS", accepted: true, fc: true, cur: -1, hEntered: true}
+			streams = append(streams, g)
+			r.frameNew(sid, "/v.S/SS", 1, 65536, nil, true)
+			n1, n2 := feasible([]int{5, 100, 16384}[rng.Intn(3)]), feasible([]int{0, 5, 100}[rng.Intn(3)])
+			r.frameData(sid, true, uint32(n1), n1, 0, 0, n1)
+			r.frameData(sid, true, uint32(n2), n2, 1, 0, n2)
+			g.reqIdx = 2
+			if rng.Intn(4) != 0 {
+				g.half = true
+				r.frameSimple(sid, "half", 0)
+			}
+			g.hRecvPend = true
+			r.call(sid, hcmd{op: "recv"})
+			r.refreshPending(streams)
+		}
 		for step := 0; step < steps && !r.served; step++ {
 			k := rng.Intn(100)
 			switch {
